@@ -25,6 +25,9 @@ CDEP = {
     "numint": "ciderpress.pyscf.numint",
     "dft_kernel": "ciderpress.models.dft_kernel",
     "train": "ciderpress.models.train",
+    "map_tools": "ciderpress.models.kernel_plans.map_tools",
+    "grids_indexer": "ciderpress.dft.grids_indexer",
+    "gen_cider_grid": "ciderpress.pyscf.gen_cider_grid",
 }
 
 
